@@ -47,7 +47,17 @@ fn verif_path_amplification_books() {
 
     let n: usize = kani::any();
     kani::assume(n <= 65535);
-    if kani::any() {
+    let op: u8 = kani::any();
+    kani::assume(op < 3);
+    if op == 2 {
+        // the PEER validating US (e.g. an ACK for our packets) says nothing about the peer's
+        // address: the amplification limit must stay in force
+        path.on_peer_validated();
+        assert!(!path.is_validated());
+        assert!(allowance(&path) as i64 == bal);
+        assert!(path.at_amplification_limit() == limited);
+        kani::cover!(limited, "peer-validated but still amplification limited");
+    } else if op == 0 {
         let out = path.on_bytes_received(n);
         let expect = (bal + 3 * n as i64).min(u32::MAX as i64);
         assert!(allowance(&path) as i64 == expect);
